@@ -250,6 +250,7 @@ class AQTSampler(cirq.Sampler):
 
         Raises:
             RuntimeError: If the circuit is empty.
+            ValueError: If an operation acts on a qubit with a negative index.
         """
 
         seq_list: list[tuple[str, float, list[int]] | tuple[str, float, float, list[int]]] = []
@@ -258,6 +259,8 @@ class AQTSampler(cirq.Sampler):
             line_qubit = cast(tuple[cirq.LineQubit], op.qubits)
             op = cast(cirq.GateOperation, op)
             qubit_idx = [obj.x for obj in line_qubit]
+            if any(idx < 0 for idx in qubit_idx):
+                raise ValueError(f'Qubit indices must be non-negative, got {op.qubits}')
             op_str = get_op_string(op)
             gate: cirq.EigenGate | cirq.PhasedXPowGate
             if op_str == 'R':
